@@ -19,13 +19,28 @@ structure Cfg where
   maxDelta : Int    -- Go `int`
   modifyMin : Bool
 
-/-- `checkConfig`: `0 < p ≤ 1` and `0 < max_increase_delta` -/
+/-- the largest `max_increase_delta` `checkConfig` accepts (`math.MaxInt32`, D29) -/
+def maxDeltaLimit : Int := 2147483647
+
+/-- `checkConfig`: `0 < p ≤ 1` and `0 < max_increase_delta ≤ math.MaxInt32` -/
 def checkConfig (c : Cfg) : Bool :=
+  decide (0 < c.pn) && decide (c.pn ≤ (c.pd : Int)) && decide (0 < c.maxDelta) && decide (c.maxDelta ≤ maxDeltaLimit)
+
+/-- `checkConfig` as it was before D29: no upper bound -/
+def checkConfigPreD29 (c : Cfg) : Bool :=
   decide (0 < c.pn) && decide (c.pn ≤ (c.pd : Int)) && decide (0 < c.maxDelta)
 
 def second : Int := 1000000000
 
-/-- `HandleAnnounce`: new (Interval, MinInterval) in nanoseconds; `none` = `Intn` panicked -/
+/-- `time.Duration` is an `int64`: sums and products wrap around -/
+def wrap64 (x : Int) : Int := (x + 2^63) % 2^64 - 2^63
+
+/-- the largest interval (in ns) to which `maxDeltaLimit` seconds can be added without wrapping:
+about 224 years -/
+def intervalLimit : Int := 2^63 - 1 - maxDeltaLimit * second
+
+/-- `HandleAnnounce`: new (Interval, MinInterval) in nanoseconds (`int64` arithmetic, as `time.Duration`);
+`none` = `Intn` panicked -/
 def handle (c : Cfg) (ih pid : Bytes) (interval minInterval : Int) : Option (Int × Int) :=
   let (s0, s1) := deriveEntropyFromRequest ih pid
   match intn s0 s1 (BitVec.ofNat 64 (2^24)) with
@@ -35,8 +50,8 @@ def handle (c : Cfg) (ih pid : Bytes) (interval minInterval : Int) : Option (Int
       match intn s0' s1' (BitVec.ofNat 64 c.maxDelta.toNat) with
       | none => none
       | some (v2, _, _) =>
-        let d := (v2.toInt + 1) * second
-        some (interval + d, if c.modifyMin then minInterval + d else minInterval)
+        let d := wrap64 ((v2.toInt + 1) * second)
+        some (wrap64 (interval + d), if c.modifyMin then wrap64 (minInterval + d) else minInterval)
     else some (interval, minInterval)
 
 end VarInterval
